@@ -274,3 +274,41 @@ func concurrentCompilesAgree(prog *ast.Program, semi bool, wantCode, wantMap str
 	}
 	return true
 }
+
+// ZZH14dReconfigure: a builder's options are copied into each parser at Build
+// time: a parser built under modes (t1, m1) behaves like one from a fresh
+// builder with those modes even when the shared builder is reconfigured to
+// (t2, m2) - and a second parser built - before the first one is used
+// (C13 "builder options copied into each parser", C14 "one builder can build
+// many independent parsers").
+func ZZH14dReconfigure() {
+	T := sym.Param("T", 2)
+	s := ContextScript(sym.Choose("ntokens", T+1))
+	t1, m1 := sym.Bool("tolerant"), sym.Bool("smart")
+	t2, m2 := sym.Bool("tolerant2"), sym.Bool("smart2")
+	sym.Observe("script", s.Types(), s.Newlines(), t1, m1, t2, m2)
+	result := func(p *parser.Parser) jobResult {
+		prog, err := p.ParseProgram()
+		return jobResult{dig: DigestOf(prog, false).Out, errs: p.Errors(), ok: err == nil}
+	}
+	ref1 := result(NewParser(s, t1, m1))
+	ref2 := result(NewParser(s, t2, m2))
+	sA := &Script{Toks: s.Toks, EOF: s.EOF}
+	sB := &Script{Toks: s.Toks, EOF: s.EOF}
+	cur := sA
+	lb := lexer.NewBuilder().UseTokenInterceptor(func(l *lexer.Lexer, next func() token.Token) token.Token {
+		return cur.Interceptor()(l, next)
+	})
+	pb := parser.NewBuilder(lb).WithTolerantMode(t1).WithSmartSemicolon(m1)
+	pA := pb.Build("")
+	pb.WithTolerantMode(t2).WithSmartSemicolon(m2)
+	cur = sB
+	pB := pb.Build("")
+	cur = sA
+	rA := result(pA)
+	cur = sB
+	rB := result(pB)
+	sym.Assert(sameResult(ref1, rA), "parser-keeps-the-modes-it-was-built-with")
+	sym.Assert(sameResult(ref2, rB), "parser-built-after-reconfiguration-has-the-new-modes")
+	sym.Cover("end")
+}
